@@ -103,7 +103,7 @@ def bounds(tier):
             "equiv_leaf_values": ["absent", "v1", "v2"], "equiv_variants": VARIANTS}
 
 
-VARIANTS = ["root", "nested", "both", "two-in-scope", "chain", "two-in-scope-override", "two-in-scope-introduce", "two-in-scope-null"]
+VARIANTS = ["root", "nested", "both", "two-in-scope", "chain", "two-in-scope-override", "two-in-scope-introduce", "two-in-scope-null", "depth2", "depth2-plain-between"]
 
 
 def jobs(tier):
@@ -121,6 +121,9 @@ def jobs(tier):
         for var in VARIANTS:
             for sd in ("cwd", "startdir"):
                 out.append({"name": "equiv/%s/%s/%s" % (fmt, var, sd), "kind": "equiv", "fmt": fmt, "variant": var, "startdir": sd, "tier": tier})
+    for fmt, opts in (("yaml", {"root_key": "CFG"}), ("xml", {"root_tag": "settings"}), ("json", {"pretty": False})):
+        for var in ("root", "nested", "chain"):
+            out.append({"name": "equiv-opts/%s/%s" % (fmt, var), "kind": "equiv", "fmt": fmt, "variant": var, "startdir": "startdir", "tier": "quick", "opts": opts})
         out.append({"name": "paths/%s" % fmt, "kind": "paths", "fmt": fmt})
     return out
 
@@ -198,8 +201,13 @@ def _conflict_kind(b, c):
 # ---------------------------------------------------------------------------------------------
 # equivalence through real files
 # ---------------------------------------------------------------------------------------------
-def _write(fmt, path, tree):
+def _write(fmt, path, tree, opts=None):
     import cincoconfig as cc
+    if opts:
+        data = cc.ConfigFormat.get(fmt, **opts).dumps(None, tree)
+        with open(path, "wb") as fh:
+            fh.write(data)
+        return data
     if fmt == "json":
         data = json.dumps(tree).encode()
     elif fmt == "yaml":
@@ -234,6 +242,12 @@ def _schema(variant, startdir):
         s.include2 = cc.IncludeField(**kw)
     if variant in ("nested", "both", "chain"):
         s.sub.inc = cc.IncludeField(**kw)
+    s.sub.deep.v = cc.IntField()
+    s.sub.deep.t = cc.StringField()
+    if variant in ("depth2", "depth2-plain-between"):
+        s.sub.deep.inc2 = cc.IncludeField(**kw)
+        if variant == "depth2":
+            s.sub.inc = cc.IncludeField(**kw)
     return s
 
 
@@ -315,6 +329,17 @@ def _equiv(job, ctx):
                 files["r.inc"] = _mk(c[0], c[1], None, None)
                 files["r2.inc"] = _mk(c[1] and 2, None, c[2], c[3])
                 want = ref_merge(ref_merge(main, files["r.inc"]), files["r2.inc"])
+            elif variant in ("depth2", "depth2-plain-between"):
+                # an include two sub-configurations deep (with and without an include field in the scope in between)
+                main.setdefault("sub", {}).setdefault("deep", {})["inc2"] = "d.inc"
+                main["sub"]["deep"]["v"] = c[2]
+                files["d.inc"] = {k: v for k, v in (("v", (c[2] or 0) + 1 if c[0] else None), ("t", c[3])) if v is not None}
+                want = copy.deepcopy(main)
+                want["sub"]["deep"] = ref_merge(main["sub"]["deep"], files["d.inc"])
+                if main["sub"]["deep"]["v"] is None:
+                    del main["sub"]["deep"]["v"]
+                    want = copy.deepcopy(main)
+                    want["sub"]["deep"] = ref_merge(main["sub"]["deep"], files["d.inc"])
             elif variant in ("two-in-scope-override", "two-in-scope-introduce", "two-in-scope-null"):
                 # the first included file itself carries a value for the second include key of the same scope
                 main["include"] = "r.inc"
@@ -344,6 +369,8 @@ def _equiv(job, ctx):
                 want["sub"] = ref_merge(want.get("sub", {}), files["n.inc"])
             # every included file also carries untyped container values (stored by the configuration as parsed)
             for name, t in files.items():
+                if name == "d.inc":
+                    continue
                 if name == "n.inc":
                     t["ul"] = [1, [2]]
                 else:
@@ -351,12 +378,14 @@ def _equiv(job, ctx):
                     t["ud"] = {"k": {"n": 1}}
             if variant in ("root", "both", "chain") or variant.startswith("two-in-scope"):
                 want["ul"] = [1, [2]]; want["ud"] = {"k": {"n": 1}}
+            if variant.startswith("depth2"):
+                pass
             if variant in ("nested", "both", "chain"):
                 want.setdefault("sub", {})["ul"] = [1, [2]]
             for name, t in files.items():
-                _write(fmt, os.path.join(incdir, name), t)
+                _write(fmt, os.path.join(incdir, name), t, job.get("opts"))
             mainpath = os.path.join(tmp, "main.cfg")
-            _write(fmt, mainpath, main)
+            maindata = _write(fmt, mainpath, main, job.get("opts"))
             if shared.get("schema") is None:
                 shared["schema"] = _schema(variant, startdir)
             schema = shared["schema"]
@@ -367,7 +396,10 @@ def _equiv(job, ctx):
             ctx.transitions += 1
             main_before = copy.deepcopy(main)
             try:
-                cfg.load(mainpath, fmt)
+                if job.get("opts"):
+                    cfg.loads(maindata, fmt, **job["opts"])       # options apply to the including and the included documents
+                else:
+                    cfg.load(mainpath, fmt)
             except Exception as exc:  # noqa
                 ctx.case((variant, fmt, mi, ci), "equiv:load-raises", True)
                 ctx.violation(fp + "load-raises", "main %s + included %s: load raised %r" % (main, files, exc), case, size=len(str(main)))
